@@ -8,8 +8,8 @@
    parameters (the C05 guards), it has the class its property name selects, and the decoder maps
    what Contentline.parts makes of its wire text back to a value with the same wire text.  [norm sorted t] = properties in emission order, canonical parameters, one-element
    lists as single values, no error list.  [tree_upper]: parameter names stored upper-case. *)
-Require Import Lib.Base Lib.Chain Gen.Gen_parser Gen.Gen_cal Model.Text Model.Params Model.Fold Model.Contentline Model.Tree.
-Require Import Proofs.LinesProofs Proofs.TreeProofs.
+Require Import Lib.Base Lib.Chain Gen.Gen_parser Gen.Gen_cal Model.Text Model.Params Model.Fold Model.Contentline Model.Tree Model.Rewrite Model.RfcLine.
+Require Import Proofs.LinesProofs Proofs.TreeProofs Proofs.RfcLineProofs Proofs.RfcExactProofs.
 
 (* parsing the serialisation of ANY tree inside the guard, for ANY decoder, gives its normal form *)
 Theorem C01_reparse : forall dec sorted multiple t text, tree_ok dec sorted t = true ->
@@ -77,4 +77,158 @@ Proof. vm_compute. reflexivity. Qed.
 Example C01_nonvacuous_ser : ser true ex_good = Ok ex_good_text.
 Proof. vm_compute. reflexivity. Qed.
 Example C01_nonvacuous_parse : parse dec_basic [] false ex_good_text = Ok [norm true ex_good].
+Proof. vm_compute. reflexivity. Qed.
+
+(* ------------------------------------------------------------------ the FIRST parse against an independent reading of RFC 5545 *)
+(* Model/RfcLine.v reads the content-line grammar of RFC 5545 section 3.1 as functions over the
+   syntax tree [rfc_line] of a well-formed line (name, parameters each with >= 1 paramtext /
+   quoted-string values, value): [rfc_line_ok] = the character classes of the grammar,
+   [rfc_print] = the text the grammar generates, [rfc_denote] = (name as written, parameter names
+   in upper case with the text of each value -- a quoted-string denotes its content, one value a
+   string, several a list --, value text).  [parts] is Contentline.parts as written.
+   [first_parse_guard l] = the printed line contains no backslash followed by , ; : or backslash
+   [guard_no_escape], none of the texts %2C %3A %3B %5C [guard_no_placeholder], and no parameter
+   name twice [guard_names_distinct].  For ALL syntax trees: *)
+Theorem C01_first_parse_rfc : forall l, rfc_line_ok l = true -> first_parse_guard l = true ->
+  parts (rfc_print l) = Ok (rfc_denote l).
+Proof. exact first_parse_rfc. Qed.
+Print Assumptions C01_first_parse_rfc.
+
+(* the guard is EXACT -- for every well-formed syntax tree parts() returns the denotation if and ONLY if
+   the guard holds: no weaker side condition exists *)
+Theorem C01_first_parse_exact : forall l, rfc_line_ok l = true ->
+  (parts (rfc_print l) = Ok (rfc_denote l) <-> first_parse_guard l = true).
+Proof. exact first_parse_exact. Qed.
+Print Assumptions C01_first_parse_exact.
+
+(* the three necessity arguments, each at its own strength.  (1) on EVERY syntax tree, well-formed or
+   not, an escape pattern in the printed text makes parts() miss the denotation (every replacement of
+   escape_string loses a backslash or a 5 for good); (3) on EVERY line whatsoever the parameters
+   parts() returns have pairwise different names; (2) without escape patterns parts() returns the
+   denotation with every parameter value and the value un-escaped once more *)
+Theorem C01_first_parse_escape_needed : forall l, guard_no_escape l = false -> parts (rfc_print l) <> Ok (rfc_denote l).
+Proof. exact escape_clause_needed. Qed.
+Print Assumptions C01_first_parse_escape_needed.
+Theorem C01_parts_names_distinct : forall line n D v, parts line = Ok (n, D, v) -> nodup_strs (map fst D) = true.
+Proof. exact parts_names_distinct. Qed.
+Print Assumptions C01_parts_names_distinct.
+Theorem C01_first_parse_form : forall l, rfc_line_ok l = true -> guard_no_escape l = true -> guard_names_distinct l = true ->
+  parts (rfc_print l) = Ok (rl_name l, unescape_params (denote_params (rl_params l)), unescape_string (rl_value l)).
+Proof. exact first_parse_form. Qed.
+Print Assumptions C01_first_parse_form.
+
+(* the line loop of Component.from_ical sees exactly the denoted (name, parameters, value) triples:
+   [run_parts] / [parse_parts] (Model/RfcLine.v) are [run_lines] / [parse] fed with split lines *)
+Theorem C01_first_parse_lines : forall dec ls s, forallb line_in_guard ls = true ->
+  run_lines dec s (map rfc_print ls) = run_parts dec s (denoted ls).
+Proof. exact run_lines_rfc. Qed.
+Print Assumptions C01_first_parse_lines.
+
+(* ... from the text Contentlines.to_ical makes of them, and from EVERY other physical layout of
+   the same lines (fold placement, CRLF or LF, SPACE or TAB, trailing blank lines; C09) *)
+Theorem C01_first_parse_text : forall dec cache multiple ls, forallb line_in_guard ls = true ->
+  parse dec cache multiple (contentlines_to_ical (map rfc_print ls)) = parse_parts dec cache multiple (denoted ls).
+Proof. exact parse_rfc_text. Qed.
+Print Assumptions C01_first_parse_text.
+
+Theorem C01_first_parse_layout : forall dec cache multiple nl ws segs k ls,
+  is_nl nl = true -> is_ws ws = true -> forallb segs_ok segs = true -> map (@concat N) segs = map rfc_print ls ->
+  forallb line_in_guard ls = true ->
+  parse dec cache multiple (phys_text nl ws segs ++ blank_lines nl k) = parse_parts dec cache multiple (denoted ls).
+Proof. exact parse_rfc_layout. Qed.
+Print Assumptions C01_first_parse_layout.
+
+(* what the guard excludes -- every clause is needed; each witness is well-formed, violates exactly
+   one clause ([guard_bits] = the three clauses) and parts() returns something else than the text
+   denotes.  Known finding C01-F3 (clauses 1 and 2; same root as C05-F1/F2, C08-F1) and C01-F4 (3). *)
+Theorem C01_first_parse_value_escape_refuted :
+  rfc_line_ok w_value_comma = true /\ guard_bits w_value_comma = (false, true, true) /\
+  rfc_print w_value_comma = s2l "N:a\,b" /\
+  parts (rfc_print w_value_comma) = Ok (s2l "N", [], s2l "a,b") /\
+  rfc_denote w_value_comma = (s2l "N", [], s2l "a\,b").
+Proof. exact value_escape_refuted. Qed.
+Theorem C01_first_parse_value_backslash_refuted :
+  rfc_line_ok w_value_bsbs = true /\ guard_bits w_value_bsbs = (false, true, true) /\
+  parts (rfc_print w_value_bsbs) = Ok (s2l "N", [], s2l "a\nb") /\
+  rfc_denote w_value_bsbs = (s2l "N", [], s2l "a\\nb").
+Proof. exact value_backslash_refuted. Qed.
+Theorem C01_first_parse_param_escape_refuted :
+  rfc_line_ok w_param_comma = true /\ guard_bits w_param_comma = (false, true, true) /\
+  rfc_print w_param_comma = s2l "N;P=a\,b:v" /\
+  parts (rfc_print w_param_comma) = Ok (s2l "N", [(s2l "P", PStr (s2l "a,b"))], s2l "v") /\
+  rfc_denote w_param_comma = (s2l "N", [(s2l "P", PList [s2l "a\"; s2l "b"])], s2l "v").
+Proof. exact param_escape_refuted. Qed.
+Theorem C01_first_parse_quoted_escape_refuted :
+  rfc_line_ok w_quoted_semi = true /\ guard_bits w_quoted_semi = (false, true, true) /\
+  parts (rfc_print w_quoted_semi) = Ok (s2l "N", [(s2l "P", PStr (s2l "a;b"))], s2l "v") /\
+  rfc_denote w_quoted_semi = (s2l "N", [(s2l "P", PStr (s2l "a\;b"))], s2l "v").
+Proof. exact quoted_escape_refuted. Qed.
+Theorem C01_first_parse_straddle_semi_refuted :
+  rfc_line_ok w_straddle_semi = true /\ guard_bits w_straddle_semi = (false, true, true) /\
+  rfc_print w_straddle_semi = s2l "N;P=a\;Q=b:v" /\
+  parts (rfc_print w_straddle_semi) = Ok (s2l "N", [(s2l "P", PStr (s2l "a;Q=b"))], s2l "v") /\
+  rfc_denote w_straddle_semi = (s2l "N", [(s2l "P", PStr (s2l "a\")); (s2l "Q", PStr (s2l "b"))], s2l "v").
+Proof. exact straddle_semi_refuted. Qed.
+Theorem C01_first_parse_straddle_colon_refuted :
+  rfc_line_ok w_straddle_colon = true /\ guard_bits w_straddle_colon = (false, true, true) /\
+  rfc_print w_straddle_colon = s2l "N;P=a\:v" /\
+  parts (rfc_print w_straddle_colon) = Ok (s2l "N", [(s2l "P", PStr (s2l "a:v"))], []) /\
+  rfc_denote w_straddle_colon = (s2l "N", [(s2l "P", PStr (s2l "a\"))], s2l "v").
+Proof. exact straddle_colon_refuted. Qed.
+Theorem C01_first_parse_value_placeholder_refuted :
+  rfc_line_ok w_value_pct = true /\ guard_bits w_value_pct = (true, false, true) /\
+  parts (rfc_print w_value_pct) = Ok (s2l "N", [], s2l "100,x") /\
+  rfc_denote w_value_pct = (s2l "N", [], s2l "100%2Cx").
+Proof. exact value_placeholder_refuted. Qed.
+Theorem C01_first_parse_param_placeholder_refuted :
+  rfc_line_ok w_param_pct = true /\ guard_bits w_param_pct = (true, false, true) /\
+  parts (rfc_print w_param_pct) = Ok (s2l "N", [(s2l "P", PList [s2l "a:b"; s2l "\"])], s2l "v") /\
+  rfc_denote w_param_pct = (s2l "N", [(s2l "P", PList [s2l "a%3Ab"; s2l "%5C"])], s2l "v").
+Proof. exact param_placeholder_refuted. Qed.
+Theorem C01_first_parse_duplicate_name_refuted :
+  rfc_line_ok w_dup = true /\ guard_bits w_dup = (true, true, false) /\
+  rfc_print w_dup = s2l "N;P=a;p=b:v" /\
+  parts (rfc_print w_dup) = Ok (s2l "N", [(s2l "P", PStr (s2l "b"))], s2l "v") /\
+  rfc_denote w_dup = (s2l "N", [(s2l "P", PStr (s2l "a")); (s2l "P", PStr (s2l "b"))], s2l "v").
+Proof. exact duplicate_name_refuted. Qed.
+
+(* NOT excluded: backslash before n / N or DQUOTE, a lone percent sign, lower-case %2c, DQUOTEs and
+   delimiters in the value -- these are inside the guard and hence read exactly *)
+Example C01_first_parse_backslash_n_inside : rfc_line_ok w_inside = true /\ first_parse_guard w_inside = true /\
+  rfc_print w_inside = s2l "N;P=""a\"",\n%2c%:x\ny\N""q:r"";%2%3a\".
+Proof. vm_compute. repeat split; reflexivity. Qed.
+
+(* the same observed by computation on a bounded domain (4 642 syntax trees: every value of length <= 3 over
+   a \ % 2 C , ; : ; one parameter with <= 2 plain/quoted values over \ % 2 C , ; two parameters named
+   p P Q with values over \ a ;): parts() returns the denotation if and only if the guard holds -- an executable cross-check of
+   C01_first_parse_exact and of the decision procedure [first_parse_agrees] the dispatcher exposes *)
+Theorem C01_first_parse_guard_exact_small :
+  guard_exact_on small_a && guard_exact_on small_b && guard_exact_on small_c = true /\
+  (length small_a, length small_b, length small_c) = (585, 3028, 1029)%nat.
+Proof. exact guard_exact_small. Qed.
+Theorem C01_first_parse_agrees_spec : forall l, first_parse_agrees l = true <-> parts (rfc_print l) = Ok (rfc_denote l).
+Proof. intros l. apply parts_is_spec. Qed.
+
+(* non-vacuity: three parameters (plain; quoted with ; : ,; multi-valued mixing plain, quoted and
+   empty), mixed-case names, value with : ; , = DQUOTE, backslash-n, percent and non-ASCII text *)
+Definition ex_rfc : rfc_line :=
+  {| rl_name := s2l "Attendee";
+     rl_params := [(s2l "CN", [Plain (s2l "Jane Doe")]);
+                   (s2l "x-note", [Quoted (s2l "a;b:c,d=e")]);
+                   (s2l "MEMBER", [Quoted (s2l "mailto:a@x"); Plain (s2l "pl\ain"); Quoted []; Plain []])];
+     rl_value := s2l "mailto:j@x;y=1,z\n""q"" 100% " ++ [233; 8364] |}.
+Definition ex_rfc_text : list N := Eval vm_compute in rfc_print ex_rfc.
+Definition ex_rfc_den : list N * params * list N := Eval vm_compute in rfc_denote ex_rfc.
+Example C01_first_parse_nonvacuous_text :
+  ex_rfc_text = s2l "Attendee;CN=Jane Doe;x-note=""a;b:c,d=e"";MEMBER=""mailto:a@x"",pl\ain,"""",:mailto:j@x;y=1,z\n""q"" 100% " ++ [233; 8364].
+Proof. reflexivity. Qed.
+Example C01_first_parse_nonvacuous_den :
+  ex_rfc_den = (s2l "Attendee",
+                [(s2l "CN", PStr (s2l "Jane Doe")); (s2l "X-NOTE", PStr (s2l "a;b:c,d=e"));
+                 (s2l "MEMBER", PList [s2l "mailto:a@x"; s2l "pl\ain"; []; []])],
+                s2l "mailto:j@x;y=1,z\n""q"" 100% " ++ [233; 8364]).
+Proof. reflexivity. Qed.
+Example C01_first_parse_nonvacuous_guard : rfc_line_ok ex_rfc && first_parse_guard ex_rfc = true.
+Proof. vm_compute. reflexivity. Qed.
+Example C01_first_parse_nonvacuous_parts : parts ex_rfc_text = Ok ex_rfc_den.
 Proof. vm_compute. reflexivity. Qed.
